@@ -221,6 +221,10 @@ type ReplayCase struct {
 	Pkg     string            `json:"pkg"`
 	Harness string            `json:"harness"`
 	Inputs  map[string]uint64 `json:"inputs"`
+	// Repeat > 1: run the case up to Repeat times and keep the first run that
+	// fails an assertion or panics (violations that depend on Go's randomised
+	// map iteration order cannot be forced natively, only repeated).
+	Repeat int `json:"repeat,omitempty"`
 }
 
 type ReplayFile struct {
@@ -285,6 +289,9 @@ func RunReplay(t *testing.T, pkg string, harnesses map[string]func()) {
 		fmt.Fprintf(out, "{\"id\":%d,\"start\":true}\n", c.ID)
 		out.Sync()
 		res := runCase(f, c, rf.Tier)
+		for k := 1; k < c.Repeat && res.End == "ok"; k++ {
+			res = runCase(f, c, rf.Tier)
+		}
 		if err := enc.Encode(res); err != nil {
 			t.Fatal(err)
 		}
